@@ -177,3 +177,23 @@ def run(tier, seed, escalate=False):
     res = _run_before_scale(tier, seed, escalate)
     f, n = axis_scale_independence("C14", SCALE_CASES, seed)
     return merge_oracle(res, f, n, "axis_scale_variants")
+
+
+# ------------------------------------------------------------------ the same argument values in another container / number type
+from oracles import argform_independence
+ARGFORM_CASES = [("interp-grid", "t2", [(lab, (lambda g: lambda d, dim: dnp.interp(d, dim, g))(g)) for lab, g in (
+        ("array", np.linspace(0.0, 14.0, 15)), ("list", list(np.linspace(0.0, 14.0, 15))), ("tuple", tuple(np.linspace(0.0, 14.0, 15))),
+        ("int-array", np.arange(0, 15)), ("range", range(0, 15)))]),
+    ("remove_background-regions", "t2", [(lab, (lambda r: lambda d, dim: dnp.remove_background(d, dim, deg=1, regions=r))(r)) for lab, r in (
+        ("list-of-tuples", [(0.0, 4.0), (8.0, 14.0)]), ("list-of-lists", [[0.0, 4.0], [8.0, 14.0]]), ("ints", [(0, 4), (8, 14)]),
+        ("tuple-of-tuples", ((0.0, 4.0), (8.0, 14.0))))]),
+    ("left_shift", "t2", [(lab, (lambda k: lambda d, dim: dnp.left_shift(d, dim, k))(k)) for lab, k in (("int", 3), ("numpy-int", np.int64(3)), ("numpy-int32", np.int32(3)))]),
+    ("remove_background-deg", "t2", [(lab, (lambda k: lambda d, dim: dnp.remove_background(d, dim, deg=k))(k)) for lab, k in (("int", 2), ("numpy-int", np.int64(2)))])]
+_run_before_argform = run
+
+
+def run(tier, seed, escalate=False):
+    """… plus: sequence arguments as tuple / list / ndarray, numbers as Python / NumPy scalars, flags as bool / numpy.bool_ / 0-1"""
+    res = _run_before_argform(tier, seed, escalate)
+    f, n = argform_independence("C14", ARGFORM_CASES, seed)
+    return merge_oracle(res, f, n, "argument_form_variants")
